@@ -919,4 +919,136 @@ def applyExpr : PExpr := .mul (.add (.var "x") (.var "shift")) (.var "scale")
 /-- `sum(values)/len(values)` — `Impute._get_imputation` for `"mean"` -/
 def meanExpr : PExpr := .div .sumV .lenV
 
+/-! ### phase 6 — generators: partial, abandoned and interleaved reads
+
+`Scale.filter` / `Impute.filter` are generator functions, and `envs[i].read()` chains such generators.  Calling them runs
+NOTHING; the first `next` runs the body up to its first `yield` (the fitting window is read, the parameters become
+LOCAL variables of that frame — nothing fitted is stored on the shared filter object, only `_times` bookkeeping);
+each later `next` yields one more interaction; `close()` abandons the frame.  A history is any list of `open`, `next`,
+`close` over any number of generators created from the SAME object(s).  `generator_histories` (Props) says that every
+yielded interaction is the corresponding element of the result of that generator's own sequence, whatever was
+opened, advanced, abandoned or re-opened in between. -/
+
+/-- the context of one yielded interaction -/
+inductive Row where
+  | dense (r : List Val)
+  | sparse (r : SCtx)
+  | scalar (v : Val)
+  deriving Repr
+
+def Ctxs.rowList : Ctxs → List Row
+  | .dense rows => rows.map .dense
+  | .sparse rows => rows.map .sparse
+  | .scalar rows => rows.map .scalar
+
+/-- a generator object -/
+inductive Gen where
+  | fresh (src : Ctxs)          -- created; no statement of the body has run
+  | running (rest : List Row)   -- suspended at a `yield`: what the frame will still yield
+  | done                        -- exhausted, closed, or ended by an exception
+  deriving Repr
+
+inductive GenOp where
+  | openG (src : Nat)           -- `obj.filter(seq[src])` / `envs[src].read()`: generators are numbered in order of creation
+  | next (g : Nat)
+  | close (g : Nat)
+  deriving Repr
+
+inductive GenOut where
+  | opened
+  | nosrc
+  | nogen
+  | item (r : Row)
+  | stop                        -- StopIteration
+  | raised (e : Err)
+  | closed
+  deriving Repr
+
+/-- the shared filter objects of the pipeline and all generators created so far -/
+structure GenSt (κ : Type) where
+  objs : List (Obj κ)
+  gens : List Gen
+
+def GenSt.step {κ : Type} (f : κ → Ctxs → Except Err Ctxs) (srcs : List Ctxs) (s : GenSt κ) (dt : List Nat) :
+    GenOp → GenSt κ × GenOut
+  | .openG i =>
+    match srcs[i]? with
+    | none => (s, .nosrc)
+    | some src => ({ s with gens := s.gens ++ [.fresh src] }, .opened)
+  | .close g =>
+    match s.gens[g]? with
+    | none => (s, .nogen)
+    | some _ => ({ s with gens := s.gens.set g .done }, .closed)
+  | .next g =>
+    match s.gens[g]? with
+    | none => (s, .nogen)
+    | some .done => (s, .stop)
+    | some (.running []) => ({ s with gens := s.gens.set g .done }, .stop)
+    | some (.running (r :: rest)) => ({ s with gens := s.gens.set g (.running rest) }, .item r)
+    | some (.fresh src) =>
+      let p := pipeRun f dt s.objs (.ok src)
+      match p.2 with
+      | .error e => ({ objs := p.1, gens := s.gens.set g .done }, .raised e)
+      | .ok c =>
+        match c.rowList with
+        | [] => ({ objs := p.1, gens := s.gens.set g .done }, .stop)
+        | r :: rest => ({ objs := p.1, gens := s.gens.set g (.running rest) }, .item r)
+
+def GenSt.run {κ : Type} (f : κ → Ctxs → Except Err Ctxs) (srcs : List Ctxs) :
+    GenSt κ → List (List Nat × GenOp) → GenSt κ × List GenOut
+  | s, [] => (s, [])
+  | s, (dt, op) :: rest =>
+    let r1 := s.step f srcs dt op
+    let r2 := GenSt.run f srcs r1.1 rest
+    (r2.1, r1.2 :: r2.2)
+
+/-- specification of a generator: a cursor into the FIXED result of its own sequence (`none` = finished) -/
+structure Cur where
+  src : Ctxs
+  pos : Option Nat
+  deriving Repr
+
+/-- the cursor machine: `F src` is the whole result of sequence `src`; no shared state at all -/
+def curStep (F : Ctxs → Except Err (List Row)) (srcs : List Ctxs) (cs : List Cur) : GenOp → List Cur × GenOut
+  | .openG i =>
+    match srcs[i]? with
+    | none => (cs, .nosrc)
+    | some src => (cs ++ [⟨src, some 0⟩], .opened)
+  | .close g =>
+    match cs[g]? with
+    | none => (cs, .nogen)
+    | some c => (cs.set g ⟨c.src, none⟩, .closed)
+  | .next g =>
+    match cs[g]? with
+    | none => (cs, .nogen)
+    | some ⟨_, none⟩ => (cs, .stop)
+    | some ⟨src, some k⟩ =>
+      match F src with
+      -- an exception can only leave the FIRST `next` (it ends the frame); `k > 0` with an error is unreachable
+      | .error e => (cs.set g ⟨src, none⟩, if k = 0 then .raised e else .stop)
+      | .ok rows =>
+        match rows[k]? with
+        | none => (cs.set g ⟨src, none⟩, .stop)
+        | some r => (cs.set g ⟨src, some (k + 1)⟩, .item r)
+
+def curRun (F : Ctxs → Except Err (List Row)) (srcs : List Ctxs) : List Cur → List GenOp → List Cur × List GenOut
+  | cs, [] => (cs, [])
+  | cs, op :: rest =>
+    let r1 := curStep F srcs cs op
+    let r2 := curRun F srcs r1.1 rest
+    (r2.1, r1.2 :: r2.2)
+
+/-- the result list of a sequence under a pipeline of filter configurations -/
+def pipeRows {κ : Type} (f : κ → Ctxs → Except Err Ctxs) (cfgs : List κ) (src : Ctxs) : Except Err (List Row) :=
+  (pipe f cfgs (.ok src)).map Ctxs.rowList
+
+/-- the generator that a cursor stands for -/
+def Cur.conc (F : Ctxs → Except Err (List Row)) : Cur → Gen
+  | ⟨_, none⟩ => .done
+  | ⟨src, some 0⟩ => .fresh src
+  | ⟨src, some (k + 1)⟩ =>
+    match F src with
+    | .error _ => .done
+    | .ok rows => .running (rows.drop (k + 1))
+
 end Coba.C11
